@@ -407,8 +407,8 @@ def run_shard(ctx, spec):
     quick = ctx.tier == "quick"
     for i, name in enumerate(spec["models"]):
         slow = name in c01.model_list() and c01.eval_time(name) > 2e-3
-        ctx.explore("interfaces", cases(name), (4 if slow else 16) if quick else (40 if slow else 320), salt=i,
+        ctx.explore("interfaces", cases(name), (6 if slow else 32) if quick else (40 if slow else 320), salt=i,
                     shrink_examples=30)
         info = core.load_model_info(name)
         if any(p.polydisperse and p.type == "volume" for p in info.parameters.call_parameters) and not slow:
-            ctx.explore("array", array_cases(name), 3 if quick else 40, salt=1000 + i, shrink_examples=20)
+            ctx.explore("array", array_cases(name), 6 if quick else 40, salt=1000 + i, shrink_examples=20)
